@@ -115,9 +115,31 @@ func drawC18(t *rapid.T) *Case {
 			ops = append(ops, c18Op{Kind: "garbage", Raw: raw, Cuts: drawCuts(t, "gcuts")})
 		}
 	}
+	// 25%: the decoders get a string length limit (SetMaxStringLength) that every name and
+	// value of the program just meets, and one block carries a field with a long name and a
+	// value of exactly that length: a limit on single strings must not depend on how the block
+	// is cut into writes
+	maxStr := 0
+	if drawBool(t, "maxstr", 25) {
+		for _, op := range ops {
+			for _, f := range op.Fields {
+				maxStr = max(maxStr, len(f.Name), len(f.Value))
+			}
+		}
+		maxStr = max(maxStr, rapid.IntRange(60, 160).Draw(t, "maxstrlen")) // (>= the long name added below)
+		for i := range ops {
+			if ops[i].Kind == "block" && ops[i].Mute < 0 {
+				ops[i].Fields = append(ops[i].Fields, rhpack.HeaderField{Name: "x-long-name-0123456789-" + strings.Repeat("q", rapid.IntRange(0, 30).Draw(t, "maxstrname")), Value: strings.Repeat("#", maxStr)})
+				if ops[i].Cuts == nil {
+					ops[i].Cuts = []int{rapid.IntRange(1, 60).Draw(t, "maxstrcut"), 7, 1000}
+				}
+				break
+			}
+		}
+	}
 	c := &Case{}
 	var sb bytes.Buffer
-	fmt.Fprintf(&sb, "initial table %d;", initial)
+	fmt.Fprintf(&sb, "initial table %d; max string length %d;", initial, maxStr)
 	for _, op := range ops {
 		switch op.Kind {
 		case "block":
@@ -135,7 +157,7 @@ func drawC18(t *rapid.T) *Case {
 	c.Summary = sb.String()
 	c.DirectKey = c.Summary
 	c.Direct = func(c *Case) []Violation {
-		vs, st := runC18(initial, ops)
+		vs, st := runC18(initial, ops, maxStr)
 		c.DirectStats = st
 		return vs
 	}
@@ -294,7 +316,7 @@ func c18ConcurrentFirstUse() (vs []Violation) {
 	return
 }
 
-func runC18(initial uint32, ops []c18Op) (vs []Violation, stats map[string]int) {
+func runC18(initial uint32, ops []c18Op, maxStr int) (vs []Violation, stats map[string]int) {
 	stats = map[string]int{}
 	if raceMode() {
 		c18RaceOnce.Do(func() {
@@ -335,6 +357,12 @@ func runC18(initial uint32, ops []c18Op) (vs []Violation, stats map[string]int) 
 		}
 	})
 	decX := xhpack.NewDecoder(initial, func(f xhpack.HeaderField) { gotX = append(gotX, f) })
+	if maxStr > 0 {
+		decA.SetMaxStringLength(maxStr)
+		decB.SetMaxStringLength(maxStr)
+		decX.SetMaxStringLength(maxStr)
+		stats["programs_with_string_length_limit"]++
+	}
 	allowed := initial
 	type pending struct {
 		size  uint32
